@@ -244,6 +244,16 @@ func isConstantSlice(info *types.Info, expr ast.Expr) bool {
 		return ok && basicType.Kind() == types.Uint8
 
 	case *ast.CompositeLit:
+		// Only slice and array literals; S{1, 2} is a struct value.
+		typ := info.TypeOf(expr)
+		if typ == nil {
+			return false
+		}
+		switch typ.Underlying().(type) {
+		case *types.Slice, *types.Array:
+		default:
+			return false
+		}
 		for _, elt := range expr.Elts {
 			if !isConstant(info, elt) {
 				return false
